@@ -88,8 +88,10 @@ def make(rng, name, node=False, with_starts=None, with_ignore=None, with_cons=No
         ign = [x for x in elems if rng.random() < 0.25]
         if len(ign) < len(elems):
             kw["elements_to_ignore"] = ign; info["ignore"] = ign
-    if node and rng.random() < 0.25 and G.number_of_nodes() > 1:      # a node lacking the attribute = ignored
-        v = rng.choice(list(G.nodes())); del G.nodes[v][attr]; info["ignore"] = info["ignore"] + [v]
+    if node and rng.random() < 0.25 and G.number_of_nodes() > 1:      # a node lacking the attribute = ignored (the cover classes
+        v = rng.choice(list(G.nodes())); del G.nodes[v][attr]         # do not read the attribute: there the node still needs covering)
+        if name not in COVER:
+            info["ignore"] = info["ignore"] + [v]
     # constraints from the generating routes
     if (rng.random() < 0.35 if with_cons is None else with_cons):
         cons = []
